@@ -135,8 +135,51 @@ fn corrupt(text: String, how: &str) -> String {
     }
 }
 
-/// Confirmed root causes (filled in after triage): maps an observation to a fixed key.
-fn attribute(_sql: &str, _generated: &str, _what: &str) -> Option<&'static str> {
+/// Confirmed root causes (triaged on the unchanged tree, see the final report): maps a failing
+/// case to one fixed key per root cause in the unparser.  Rules are ordered, first match wins; a
+/// failure matching none keeps its per-query default key.
+fn attribute(sql: &str, generated: &str, optimized: bool) -> Option<&'static str> {
+    let has = |s: &str| sql.contains(s);
+    if has("generate_series(") || has("range(") {
+        // TableScan of a table function is written as the table name "generate_series()"
+        return Some("table_function_scan_unparsed_as_quoted_table_name");
+    }
+    if has(" INTERSECT ") || has(" EXCEPT ") {
+        // set operations are planned as null-equal LeftSemi/LeftAnti joins (+ Distinct); the unparser writes
+        // `[NOT] EXISTS (.. WHERE l.x = r.x)` with plain `=`, unqualified scopes and no multiset semantics
+        return Some("set_operation_semi_anti_join_unparsed_as_exists_with_plain_equality");
+    }
+    if has("DISTINCT ON") && optimized {
+        return Some("optimized_distinct_on_unparsed_as_first_value_group_by");
+    }
+    if sql.contains("(b ORDER BY") || sql.contains("(a ORDER BY") || sql.contains("(c ORDER BY") {
+        if !generated.contains("(t.b ORDER BY") && !generated.contains("ORDER BY t.b") {
+            return Some("aggregate_order_by_clause_dropped");
+        }
+    }
+    if has("JOIN (") && !optimized {
+        return Some("parenthesised_join_on_the_right_side_flattened");
+    }
+    if sql.starts_with("((SELECT") || (has(" LIMIT ") && has(" UNION ") && sql.find(" LIMIT ") < sql.find(" UNION ")) {
+        return Some("order_by_limit_of_a_union_branch_hoisted_to_the_union");
+    }
+    if optimized && has(" OFFSET ") {
+        // Limit(skip, fetch) over Sort/TableScan(fetch = skip + fetch): the inner fetch is written as the LIMIT
+        return Some("optimized_limit_offset_written_with_the_pushed_down_fetch");
+    }
+    if optimized && has(" NOT IN (") {
+        return Some("optimized_null_aware_anti_join_unparsed_as_not_exists");
+    }
+    if optimized && (has(" SEMI JOIN ") || has(" ANTI JOIN ") || has("EXISTS (")) {
+        if generated.contains("__correlated_sq_") && generated.contains(" AS t2") {
+            return Some("optimized_correlated_subquery_alias_mismatch");
+        }
+        return Some("optimized_semi_anti_join_filter_lost_or_misplaced");
+    }
+    if optimized && (has(" LEFT JOIN ") || has(" RIGHT JOIN ") || has(" FULL JOIN ")) && has(" WHERE ") {
+        // a filter pushed into a TableScan under an outer join is written into the ON clause
+        return Some("optimized_table_scan_filter_written_into_outer_join_on");
+    }
     None
 }
 
@@ -169,7 +212,8 @@ fn check(ctx_a: &SessionContext, ctx_b: &SessionContext, sql: &str, optimized: b
     let r0 = engine::run_plan(ctx_a, plan);
     let r1 = engine::run_sql(ctx_b, &text);
     let mk = |default_key: String, what: String| -> Fail {
-        let cause = attribute(sql, &text, &what).map(|s| s.to_string()).unwrap_or(default_key);
+        let _ = &what;
+        let cause = attribute(sql, &text, optimized).map(|s| s.to_string()).unwrap_or(default_key);
         Fail { cause, what: format!("{what}\ninput SQL:     {sql}\ngenerated SQL: {text}\nplan (optimized={optimized}):\n{plan_text}") }
     };
     let fail = match (r0, r1) {
@@ -213,6 +257,15 @@ fn check(ctx_a: &SessionContext, ctx_b: &SessionContext, sql: &str, optimized: b
         (Err(e), Ok(b)) => Some(mk(format!("only_original_fails:{}", normalise_error(&e)), format!("the plan fails ({e}) but the generated SQL returns {}", show_rows(&b.rows)))),
     };
     (st, fail)
+}
+
+/// One key per parse error class, whatever the dialect and position.
+fn dialect_key(e: &str) -> String {
+    let n = normalise_error(e);
+    let n = n.split(" at Line").next().unwrap_or("").to_string();
+    // Snowflake words the same failure differently
+    let n = if n.contains("found: FROM") { "Expected: joined table, found: FROM".to_string() } else { n };
+    format!("other_dialect_text_unparseable:{n}")
 }
 
 const DIALECTS: [&str; 6] = ["postgres", "mysql", "sqlite", "duckdb", "bigquery", "snowflake"];
@@ -264,7 +317,7 @@ fn run_case(c: &Case) -> Result<(), Fail> {
         Some(d) => {
             let plan = build_plan(&a, &c.sql, c.optimized).map_err(|e| Fail { cause: "machinery".into(), what: e })?;
             match dialect_check(&plan, d) {
-                Err((text, e)) => Err(Fail { cause: format!("dialect_text_unparseable:{d}:{}", normalise_error(&e)), what: format!("{d}: generated `{text}` for {} does not parse: {e}", c.sql) }),
+                Err((text, e)) => Err(Fail { cause: dialect_key(&e), what: format!("{d}: generated `{text}` for {} does not parse: {e}", c.sql) }),
                 Ok(_) => Ok(()),
             }
         }
@@ -346,7 +399,7 @@ fn explore(ctx: &Ctx) {
                                     ctx.count(&format!("dialect_unparseable[{d}]"), 1);
                                     record(
                                         &fails,
-                                        Fail { cause: format!("dialect_text_unparseable:{d}:{}", normalise_error(&e)), what: format!("{d}: the text generated for {} (optimized={optimized}) does not parse with sqlparser's {d} dialect: {e}\ngenerated: {text}", q.sql) },
+                                        Fail { cause: dialect_key(&e), what: format!("{d}: the text generated for {} (optimized={optimized}) does not parse with sqlparser's {d} dialect: {e}\ngenerated: {text}", q.sql) },
                                         rank.clone(),
                                         case(Some(d.to_string())),
                                     );
